@@ -31,6 +31,25 @@ type Exec struct {
 	readLog    map[string]bool
 	entryMeasure Term
 	heapElemType map[string]types.Type
+	qhyps      []qhyp // quantified hypotheses that can be instantiated at goal constants
+}
+
+type qhyp struct {
+	inst  func(sk map[string]SVal) (Term, bool)
+	guard Term
+}
+
+// instantiateHyps assumes the instances of the registered quantified
+// hypotheses at the constants of a skolemised goal.
+func (ex *Exec) instantiateHyps(sk map[string]SVal) {
+	if len(sk) == 0 {
+		return
+	}
+	for _, h := range ex.qhyps {
+		if t, ok := h.inst(sk); ok {
+			ex.cx.assume(implies(h.guard, t))
+		}
+	}
 }
 
 type exitRec struct {
